@@ -228,6 +228,24 @@ fn c28_extras(rep: &mut Report) {
             }
         }
     }
+    // collections around the size up to which the parser reserves memory ahead of reading (binio.rs: 65536 entries)
+    for n in [65_535usize, 65_536, 65_537, 200_000] {
+        let vals: Vec<FV> = grammar("RepositoryState").iter().map(|(_, t)| {
+            if matches!(t, Ty::Map) {
+                return FV::Map((0..n as u64).map(|i| (i.wrapping_mul(0x9E3779B97F4A7C15), { let mut h = [0x5au8; 32]; h[..8].copy_from_slice(&i.to_be_bytes()); h })).collect())
+            }
+            let c = match format!("{t:?}").as_str() { "OptBytes" => "s_etag", "OptI64" => "s_zero", "Uuid" => "mixed",
+                                                      "U64" => "one", "I64" => "zero", "Https" => "min", _ => "v" };
+            class_value(*t, c, false)
+        }).collect();
+        let beh = json!({"rec": "RepositoryState", "delta_state_entries": n});
+        rep.eval(pid);
+        match catch(std::panic::AssertUnwindSafe(|| real::build("RepositoryState", &vals).and_then(|v| round_trip("RepositoryState", &v, &[1, 2, 3]).map_err(|(w, d)| format!("{w}: {d}"))))) {
+            Ok(Ok(_)) => rep.nontrivial(pid, format!("bigmap|{n}")),
+            Ok(Err(e)) => rep.violation(pid, "roundtrip/RepositoryState/large-map", format!("a delta state of {n} entries does not read back as written: {e}"), beh, json!({"detail": e})),
+            Err(p) => rep.violation(pid, "roundtrip/RepositoryState/panic", format!("panic: {p}"), beh, json!({"panic": p})),
+        }
+    }
     // sentinels of the primitive optional types (binio.rs): None and the values next to the sentinel
     fn prim<T>(rep: &mut Report, name: &str, v: T, show: String)
     where T: Compose<Vec<u8>> + for<'a> Parse<&'a [u8]> + PartialEq {
